@@ -121,6 +121,35 @@ def ensure(module, name, clause, cond, snapshots=()):
     return wrapped
 
 
+def fast_post_note_to_int(notes_module):
+    """M-pc on notes.note_to_int as a hand-written postcondition wrapper: this function is called
+    millions of times by every workload (every Note comparison goes through it) and icontract's
+    argument resolution costs ~15 us per call; the condition evaluated is the same c_note_to_int."""
+    orig = notes_module.note_to_int
+    natural = T.NAT
+
+    @functools.wraps(orig)
+    def note_to_int(note):
+        result = orig(note)
+        try:
+            ok = result == (natural[note[0]] + note.count("#", 1) - note.count("b", 1)) % 12
+        except Exception:
+            ok = False
+        if ok:
+            if CTX is not None:
+                cs = CTX.counters
+                cs[_MPC] = cs.get(_MPC, 0) + 1
+            return result
+        if not c_note_to_int(note, result):
+            raise MonitorViolation("M-pc")
+        return result
+    n = rebind(orig, note_to_int)
+    ATTACHED.append("M-pc (hand-written postcondition) on mingus.core.notes.note_to_int (%d refs)" % n)
+
+
+_MPC = "M-pc note_to_int == (natural+sharps-flats) mod 12"
+
+
 # ------------------------------------------------------------------------------------ M-args
 def _snap(v):
     if isinstance(v, (list, dict)):
@@ -272,7 +301,7 @@ def c_chord_builder_result(result):
 # -- NoteContainer: sortedness preserved (OLD-guarded) ------------------------------------------
 def _nc_ok(nc):
     try:
-        ints = [int(x) for x in nc.notes]
+        ints = [12 * x.octave + T.NAT[x.name[0]] + x.name.count("#", 1) - x.name.count("b", 1) for x in nc.notes]
     except Exception:
         return None
     for a, b in zip(ints, ints[1:]):
@@ -328,7 +357,7 @@ def attach_standard(ctx, mode="raise", args_monitor=True):
     from mingus.core import notes, intervals, keys, scales, chords, progressions, value, meter
     from mingus.containers import NoteContainer, Bar
 
-    ensure(notes, "note_to_int", "M-pc", c_note_to_int)
+    fast_post_note_to_int(notes)
     ensure(notes, "int_to_note", "M-int_to_note", c_int_to_note)
     ensure(notes, "augment", "M-augment", c_augment)
     ensure(notes, "diminish", "M-diminish", c_diminish)
